@@ -27,7 +27,39 @@ def valid_slices(sch, rnd, sources, per=3):
             exp = flat.ref_slice(sp[4], a, b, leaf) if a < b else ((), 0, 0)
             if (flat.pt_frag(s.content), s.open_start, s.open_end) == exp:
                 out.append(s)
-    return out
+            if a < b and rnd.random() < 0.3:
+                # the same range with its ancestors kept: a single top node open on both sides
+                # (what a clipboard or Slice.max_open produces; Node.slice alone never does)
+                out.append(reroot(sd, sp, a, b, leaf, rnd))
+    return [x for x in out if x is not None]
+
+
+def reroot(sd, sp, a, b, leaf, rnd):
+    """slice(a,b) of document sd kept inside k >= 1 of its shared ancestors (k random; k =
+    all of them equals include_parents=True), confirmed by the reference cut."""
+    from prosemirror.model import Fragment, Slice
+
+    tk = flat.toks(sp[4], leaf)
+    prof = flat.depth_profile(tk)
+    shared = flat.min_depth_between(prof, a, b)
+    if shared == 0:
+        return None
+    try:
+        full = sd.slice(a, b, True)
+    except Exception:
+        return None
+    if (flat.pt_frag(full.content), full.open_start, full.open_end) != (flat.cut_children(sp[4], a, b, leaf), prof[a], prof[b]):
+        return None
+    drop = rnd.randint(0, shared - 1)  # peel this many outer ancestors off again
+    content = full.content
+    os_, oe = full.open_start, full.open_end
+    for _ in range(drop):
+        if content.child_count != 1:
+            break
+        content = content.child(0).content
+        os_ -= 1
+        oe -= 1
+    return Slice(content, os_, oe)
 
 
 def random_mark(sch, rnd, g):
@@ -89,7 +121,7 @@ def gen_step(sch, rnd, g, d, p, tk, prof, slices, kind=None):
     if kind == "replaceAround":
         r = rnd.random()
         structure = rnd.random() < 0.5
-        if r < 0.35 and starts:
+        if r < 0.25 and starts:
             # wrap-like: a chain of empty wrapper nodes around a flat range of siblings
             i = rnd.choice(starts)
             j = matching_close(tk, i) + 1 if tk[i][0] == "O" else i + 1
@@ -104,7 +136,7 @@ def gen_step(sch, rnd, g, d, p, tk, prof, slices, kind=None):
                 t = rs.nodes[w]
                 content = Fragment.from_(sch.schema.nodes[w].create(g.attrs(t.attrs, w), content))
             return ReplaceAroundStep(i, j, i, j, Slice(content, 0, 0), k, structure), "around-wrap"
-        if r < 0.55 and starts:
+        if r < 0.4 and starts:
             # retype-like: replace the open and close token of one node
             opens = [i for i in starts if tk[i][0] == "O"]
             if opens:
@@ -114,13 +146,30 @@ def gen_step(sch, rnd, g, d, p, tk, prof, slices, kind=None):
                 w = rnd.choice(names)
                 node = sch.schema.nodes[w].create(g.attrs(rs.nodes[w].attrs, w))
                 return ReplaceAroundStep(i, j, i + 1, j - 1, Slice(Fragment.from_(node), 0, 0), 1, structure), "around-retype"
-        if r < 0.75:
+        if r < 0.5:
             # lift-like: unwrap the children of a node (drop its open and close token)
             opens = [i for i in starts if tk[i][0] == "O"]
             if opens:
                 i = rnd.choice(opens)
                 j = matching_close(tk, i) + 1
                 return ReplaceAroundStep(i, j, i + 1, j - 1, Slice.empty, 0, structure), "around-unwrap"
+        if r < 0.93 and slices and starts:
+            # open-slice form: a flat run of sibling nodes as the gap, (from,to) around it chosen
+            # compatible with the slice's open depths, any insert offset inside the slice
+            pool = [x for x in slices if x.size > 0] or slices
+            deep = [x for x in pool if (x.open_start >= 2 or x.open_end >= 2) and x.content.child_count >= 2]
+            s = rnd.choice(deep) if deep and rnd.random() < 0.5 else rnd.choice(pool)
+            i = rnd.choice(starts)
+            j = matching_close(tk, i) + 1 if tk[i][0] == "O" else i + 1
+            while j < n and tk[j][0] in ("O", "L") and rnd.random() < 0.3:
+                j = matching_close(tk, j) + 1 if tk[j][0] == "O" else j + 1
+            need = s.open_start - s.open_end
+            cands = [(a, b) for a in range(max(0, i - 6), i + 1) if prof[a] >= s.open_start
+                     for b in range(j, min(n, j + 6) + 1) if prof[a] - prof[b] == need]
+            if cands:
+                a, b = rnd.choice(cands)
+                ins = rnd.randint(0, s.size)
+                return ReplaceAroundStep(a, b, i, j, s, ins, rnd.random() < 0.2), "around-open"
         # free-form: ordered positions, any slice, any insert offset
         a, b = pair()
         ga = rnd.randint(a, b)
